@@ -8,6 +8,7 @@ duplicates, ids never issued, any timing of deadlines and drops); nothing is bou
 -/
 import KafkaVerif.Model.ConnMux
 import KafkaVerif.Model.TransportConn
+import KafkaVerif.Lemmas.BatchBytes
 
 namespace KV.C06
 open KV KV.ConnMux
@@ -672,5 +673,150 @@ example : (TransportConn.run [.new 1 1 1 [⟨2, 7⟩, ⟨3, 8⟩], .recv 1 7, .a
 example : TransportConn.run [.new 1 1 1 [⟨9, 7⟩], .recv 1 7, .done 1 .ok] = none := by decide
 
 end Transport
+
+/-! ## Part 3 — a Batch consumes its frame whole, on every read path
+
+`ConnMux.take` removes a frame from the stream as a unit and `finish` says whether the conn survives.  For a Fetch
+exchange that is a statement about bytes: Model/BatchBytes.lean follows `ReadBatchWith`, the message-set reader and
+`Batch.Read / ReadMessage / Close` with the `remain` counter of the Go code, and the theorem below holds for EVERY
+sequence of reads the caller makes before Close (ReadMessage, Read into a buffer of any capacity, none at all),
+every fetch version header (v2, v5, v10), every content of the response (well formed, truncated, garbage) and either
+deadline outcome. -/
+section BatchBytes
+open KV.Reader KV.ConnOps KV.BatchBytes
+
+/-- the frame is finished: its counter is at zero (so the next byte of the stream is the next frame's first byte),
+or the stream has ended -/
+def FrameDone (s' : RS) : Prop := s'.sz = 0 ∨ s'.inp = []
+
+theorem discard_rest_done (s : RS) : FrameDone (discardN (↑s.sz) s).2 := by
+  cases h : discardN (↑s.sz) s with
+  | mk r s2 =>
+    cases r with
+    | ok u => exact Or.inl (discardN_all_ok h)
+    | error e => exact Or.inr (discardN_all_fail h).1
+
+/-- what `ReadBatchWith` hands to the Batch -/
+theorem openBatch_shape (expired : Bool) (v : Nat) (offset : Int) (s : RS) :
+    Adv s (openBatch expired v offset s).rs ∧
+    (((openBatch expired v offset s).hasMsgs = true ∧ (openBatch expired v offset s).empty = false) ∨
+     ((openBatch expired v offset s).empty = true ∧
+        ∃ c, runSteps (fetchHeader v) { ver := v } s = (.ok c, (openBatch expired v offset s).rs) ∧ c.hwm = offset) ∨
+     ((openBatch expired v offset s).hasMsgs = false ∧ ∃ e, (openBatch expired v offset s).err = some e ∧
+        (keeps (some e) = true → FrameDone (openBatch expired v offset s).rs))) := by
+  have hh := runSteps_adv (fetchHeader v) { ver := v } s
+  unfold openBatch
+  cases hr : runSteps (fetchHeader v) { ver := v } s with
+  | mk r s1 =>
+    rw [hr] at hh
+    cases r with
+    | ok c =>
+      simp only
+      split
+      · next hw => exact ⟨hh, Or.inr (Or.inl ⟨rfl, c, rfl, hw⟩)⟩
+      · have h2 := conserves_readHeader01 s1
+        cases hd : readHeader01 s1 with
+        | mk r2 s2 =>
+          rw [hd] at h2
+          cases r2 with
+          | ok h => exact ⟨Adv.trans hh h2, Or.inl ⟨rfl, rfl⟩⟩
+          | error e => cases e <;> exact ⟨Adv.trans hh h2, Or.inl ⟨rfl, rfl⟩⟩
+    | error e =>
+      have drain : ∀ (k : BErr), Adv s (if s1.sz > 0 then
+            match discardN (↑s1.sz) s1 with
+            | (.ok _, s2) => ({ rs := s2, pending := none, offset := offset, err := some k, hasMsgs := false, empty := false } : BSt)
+            | (.error e, s2) => { rs := s2, pending := none, offset := offset, err := some (ofErr e), hasMsgs := false, empty := false }
+          else { rs := s1, pending := none, offset := offset, err := some k, hasMsgs := false, empty := false }).rs ∧
+          ((if s1.sz > 0 then
+            match discardN (↑s1.sz) s1 with
+            | (.ok _, s2) => ({ rs := s2, pending := none, offset := offset, err := some k, hasMsgs := false, empty := false } : BSt)
+            | (.error e, s2) => { rs := s2, pending := none, offset := offset, err := some (ofErr e), hasMsgs := false, empty := false }
+          else { rs := s1, pending := none, offset := offset, err := some k, hasMsgs := false, empty := false }).hasMsgs = false ∧
+           ∃ e', (if s1.sz > 0 then
+            match discardN (↑s1.sz) s1 with
+            | (.ok _, s2) => ({ rs := s2, pending := none, offset := offset, err := some k, hasMsgs := false, empty := false } : BSt)
+            | (.error e, s2) => { rs := s2, pending := none, offset := offset, err := some (ofErr e), hasMsgs := false, empty := false }
+          else { rs := s1, pending := none, offset := offset, err := some k, hasMsgs := false, empty := false }).err = some e' ∧
+            (keeps (some e') = true → FrameDone (if s1.sz > 0 then
+            match discardN (↑s1.sz) s1 with
+            | (.ok _, s2) => ({ rs := s2, pending := none, offset := offset, err := some k, hasMsgs := false, empty := false } : BSt)
+            | (.error e, s2) => { rs := s2, pending := none, offset := offset, err := some (ofErr e), hasMsgs := false, empty := false }
+          else { rs := s1, pending := none, offset := offset, err := some k, hasMsgs := false, empty := false }).rs)) := by
+        intro k
+        have hd := conserves_discardN (↑s1.sz) s1
+        have hdone := discard_rest_done s1
+        split
+        · cases hx : discardN (↑s1.sz) s1 with
+          | mk r2 s2 =>
+            rw [hx] at hd hdone
+            cases r2 <;> exact ⟨Adv.trans hh hd, rfl, _, rfl, fun _ => hdone⟩
+        · rename_i hz
+          exact ⟨hh, rfl, _, rfl, fun _ => Or.inl (by show s1.sz = 0; omega)⟩
+      cases e with
+      | kafka k =>
+        have := drain (.kafka k)
+        exact ⟨this.1, Or.inr (Or.inr this.2)⟩
+      | shortRead =>
+        simp only
+        split
+        · have := drain (.kafka 7)
+          exact ⟨this.1, Or.inr (Or.inr this.2)⟩
+        · exact ⟨hh, Or.inr (Or.inr ⟨rfl, _, rfl, by simp [keeps]⟩)⟩
+      | eof => exact ⟨hh, Or.inr (Or.inr ⟨rfl, _, rfl, by simp [keeps, ofErr]⟩)⟩
+      | unexpectedEOF => exact ⟨hh, Or.inr (Or.inr ⟨rfl, _, rfl, by simp [keeps, ofErr]⟩)⟩
+      | other w => exact ⟨hh, Or.inr (Or.inr ⟨rfl, _, rfl, by simp [keeps, ofErr]⟩)⟩
+      | panic w => exact ⟨hh, Or.inr (Or.inr ⟨rfl, _, rfl, by simp [keeps, ofErr]⟩)⟩
+
+/-- **batch_close_consumes_frame.**  For every fetch version, fetch offset, deadline outcome, content of the stream
+and every sequence of `ReadMessage` / `Read(buffer of any capacity)` calls (including none) before `Close`:
+the bytes consumed are charged to the frame one for one, and IF THE CONN IS KEPT the frame has been consumed to its
+last byte (or the stream has ended) — never a kept conn with part of the response still in the stream.
+`hwf`: a response whose high watermark equals the fetch offset carries an empty message set (the Go code then
+takes the `empty` reader, which reads nothing; see C11 `fetch_at_watermark_counterexample`). -/
+theorem batch_close_consumes_frame (expired : Bool) (v : Nat) (offset : Int) (fuel : Nat) (ops : List Op) (s : RS)
+    (hwf : ∀ c s1, runSteps (fetchHeader v) { ver := v } s = (.ok c, s1) → c.hwm = offset → s1.sz = 0) :
+    Adv s (fetchBatch expired v offset fuel ops s).rs ∧
+    ((fetchBatch expired v offset fuel ops s).kept = true → FrameDone (fetchBatch expired v offset fuel ops s).rs) := by
+  have ho := openBatch_shape expired v offset s
+  have hops := runOps_adv expired fuel ops (openBatch expired v offset s)
+  have hk := batchClose_kept (runOps expired fuel ops (openBatch expired v offset s)).2
+  have hcl : Adv (runOps expired fuel ops (openBatch expired v offset s)).2.rs
+      (batchClose (runOps expired fuel ops (openBatch expired v offset s)).2).2.1 := by
+    unfold batchClose
+    simp only
+    split
+    · exact conserves_discardN _ _
+    · exact Adv.refl _
+  refine ⟨?_, ?_⟩
+  · simp only [fetchBatch]
+    exact Adv.trans ho.1 (Adv.trans hops.1 hcl)
+  · intro hkept
+    simp only [fetchBatch] at hkept ⊢
+    rcases ho.2 with ⟨hm, he⟩ | ⟨he, c, hc, hw⟩ | ⟨hm, e, hee, hdone⟩
+    · -- a real reader: Close discards whatever is left
+      unfold batchClose
+      simp only [hops.2.1, hops.2.2, hm, he, Bool.not_false, Bool.and_self, ↓reduceIte]
+      exact discard_rest_done _
+    · -- the watermark shortcut: nothing is read, nothing may be there
+      have hrs := runOps_empty_rs expired fuel ops _ he
+      unfold batchClose
+      simp only [hops.2.2, he, Bool.not_true, Bool.and_false, Bool.false_eq_true, ↓reduceIte, hrs]
+      exact Or.inl (hwf c _ hc hw)
+    · -- the header failed: the Batch is born with an error and never reads
+      have hfix := runOps_err_fixed expired fuel ops _ e hee
+      rw [hfix] at hk hkept ⊢
+      rw [hk, hee] at hkept
+      unfold batchClose
+      simp only [hm, Bool.false_and, Bool.false_eq_true, ↓reduceIte]
+      exact hdone hkept
+
+/-- in the kept case with the frame on the stream: what is left is exactly what followed the frame -/
+theorem batch_close_leaves_next_frame (expired : Bool) (v : Nat) (offset : Int) (fuel : Nat) (ops : List Op) (s : RS)
+    (hwf : ∀ c s1, runSteps (fetchHeader v) { ver := v } s = (.ok c, s1) → c.hwm = offset → s1.sz = 0)
+    (hz : (fetchBatch expired v offset fuel ops s).rs.sz = 0) :
+    (fetchBatch expired v offset fuel ops s).rs.inp = s.inp.drop s.sz :=
+  ((batch_close_consumes_frame expired v offset fuel ops s hwf).1.consumed_all hz).2
+
+end BatchBytes
 
 end KV.C06
